@@ -281,8 +281,8 @@ Variable T : tables.
 Variable W : world.
 Variable sac : bool.                        (* superclass_auto_cast *)
 
-(* FileSet.__init__ on a collection of paths: normalise, drop duplicates, every path must exist
-   (FileNotFoundError), then the format wants exactly one path it accepts (FormatMismatchError, a TypeError) *)
+(* FileSet.__init__ on a collection of paths: normalise, make absolute, drop duplicates, every path must exist
+   (FileNotFoundError); a single path is then checked against the format (FormatMismatchError, a TypeError) *)
 Fixpoint dedupe_str (l : list string) (acc : list string) : list string :=
   match l with
   | [] => rev acc
@@ -293,7 +293,8 @@ Definition fileset_ctor (f : fmt) (paths : list string) : result val :=
   if existsb (fun p => match w_check W f p with Some EOther => true | _ => false end) ps then Err EOther
   else match ps with
        | [p] => match w_check W f p with None => Ok (VFile f p) | Some e => Err e end
-       | _ => Err ETypeError
+       | [] => Err ETypeError
+       | _ => Err EUnmodelled     (* several existing paths: which of them a format picks is fileformats' business *)
        end.
 
 (* coerce_obj's [type_(obj)] for the container classes, given the already coerced items *)
@@ -714,5 +715,9 @@ Definition res_equiv (a b : result val) : bool :=
   | Err e, Err e' => err_eqb e e'
   | _, _ => false
   end.
+(* comparing the model's answer with an observation: where the model does not speak there is nothing to compare *)
+Definition res_tie (m o : result val) : bool :=
+  match m with Err EUnmodelled => true | _ => res_equiv m o end.
+Definition is_unmodelled {A} (m : result A) : bool := match m with Err EUnmodelled => true | _ => false end.
 Definition res_unit_eqb (a b : result unit) : bool :=
   match a, b with Ok _, Ok _ => true | Err e, Err e' => err_eqb e e' | _, _ => false end.
